@@ -148,3 +148,12 @@ CLAIMED["C14"] = (
     "Trusted: A-enc, A-smt; segments are abstract (offset rule, alignment, length). Layouts longer than three segments follow the same recursion "
     "(not instantiated).",
     "DESIGN.md 7 C14")
+CLAIMED["C06"] = (
+    "Deductively only the container flags word and the verifier's range records: AHABContainerBase.set_flags places SRK set, used SRK id and "
+    "revoke mask in bits [1:0], [5:4], [11:8], the readers return those fields and a lemma shows they invert set_flags; "
+    "Verifier.add_record_bit_range records ERROR exactly when the value is missing or outside [0, 2^bits) — with C20's truthful check_range this "
+    "is what makes 'a valid image is never reported as erroneous' hold for the SW/fuse version records (repaired defect). Container, image-array, "
+    "signature-block and SRK layouts, hashing, signing, offsets and disjointness are NOT under contract: bounded build/parse/verify of the "
+    "repository's example configurations only.",
+    "Trusted: A-enc, A-smt. Everything outside the two units above is unverified here; 'corruption is reported' rests on the primitives (not claimed).",
+    "DESIGN.md 7 C06")
